@@ -691,11 +691,8 @@ class _AbstractSampler(_ABC):
         except TimeoutError:  # Catch SIGINT -------------------------------------------
             pass
         except Exception as e:
-            # Any other exception, we don't know how to handle
-            self.proposals_iterator.close()
-            self.proposals_iterator = None
-            self.end_time = _datetime.now()
-            self._close_sampler()
+            # Any other exception, we don't know how to handle. Cleaning up (closing
+            # the progressbar and the samples file) is done in the finally block.
             raise e
         finally:
             self.proposals_iterator.close()
